@@ -32,7 +32,7 @@ ASSUMPTIONS = [
 STD = ["chart", "drawing-page", "graphic", "paragraph", "presentation", "ruby", "section", "table", "table-cell", "table-column", "table-row", "text"]
 FALSE_FAMS = ["list", "number", "date", "time", "percentage", "currency", "boolean", "outline", "marker", "presentation-page-layout"]
 DEFAULT_OK = ["paragraph", "text", "section", "table", "table-column", "table-row", "table-cell", "chart", "drawing-page", "graphic", "presentation", "ruby"]
-NAMES = ["N1", "N2", "Standard", "odfdo_auto_1", "odfdo_auto_3", "odfdo_auto_x", "ta_0", "a b", "Heading_20_1"]
+NAMES = ["N1", "N2", "Standard", "odfdo_auto_1", "odfdo_auto_3", "odfdo_auto_x", "ta_0", "a b", "Heading_20_1", "odfdo_auto_2"]
 FP = odfread.q("style:class")
 
 
@@ -102,7 +102,8 @@ def run_case(case, ctx):
         n += 1
         with ctx.guard(("C13", k, "exception"), case):
             if k == "insert":
-                family = op["family"]
+                # histories concentrate on one family (case-level focus) so that same-family sequences are frequent
+                family = case.get("focus") if (op.get("focused") and case.get("focus")) else op["family"]
                 fp = f"FP{n}"
                 automatic, default = op["mode"] == "automatic", op["mode"] == "default"
                 if default and family not in DEFAULT_OK:
@@ -246,7 +247,9 @@ def run_shard(ctx):
     fam = st.one_of(st.sampled_from(STD), st.sampled_from(STD + FALSE_FAMS + ["master-page", "page-layout", "font-face"]))
     op = st.one_of(
         st.fixed_dictionaries({"k": st.just("insert"), "family": fam, "mode": st.sampled_from(["common", "common", "automatic", "automatic", "default"]),
-                               "unnamed": st.booleans(), "name": st.integers(0, 20), "as_xml": st.booleans()}),
+                               "unnamed": st.booleans(), "name": st.integers(0, 20), "as_xml": st.booleans(), "focused": st.booleans()}),
+        st.fixed_dictionaries({"k": st.just("insert"), "family": fam, "mode": st.just("automatic"), "unnamed": st.booleans(),
+                               "name": st.sampled_from([3, 9, 4]), "as_xml": st.just(False), "focused": st.just(True)}),
         st.fixed_dictionaries({"k": st.just("insert"), "family": fam, "mode": st.sampled_from(["common", "automatic"]),
                                "unnamed": st.booleans(), "name": st.integers(0, 2), "as_xml": st.booleans()}),
         st.fixed_dictionaries({"k": st.just("page_break")}),
@@ -255,7 +258,8 @@ def run_shard(ctx):
         st.fixed_dictionaries({"k": st.just("merge"), "i": st.integers(0, 20)}),
         st.fixed_dictionaries({"k": st.just("reload")}),
     )
-    cases = st.fixed_dictionaries({"source": st.sampled_from(srcs), "ops": st.lists(op, min_size=1, max_size=8)})
+    cases = st.fixed_dictionaries({"source": st.sampled_from(srcs), "ops": st.lists(op, min_size=1, max_size=8),
+                                   "focus": st.sampled_from(["paragraph", "text", "table-cell", "graphic", "list", "number"])})
 
     def mk():
         @given(cases)
@@ -265,8 +269,7 @@ def run_shard(ctx):
                 ctx.count("op:" + o["k"])
             try:
                 run_case(case, ctx)
-                if ctx.evaluations % 499 == 0:
-                    ctx.sample(case)
+                ctx.maybe_sample(case, 499)
             except Abandon:
                 pass
         return t
